@@ -427,6 +427,15 @@ def r4_rotation_siblings(ctx, P, R="C16.R4"):
             amt = b.prov_operand(t["args"][1], s_)
             amt_ok = amt[0] == "bin" and amt[1].startswith("Sub")
             sig.add((pol, t["f"]["name"], kind, "end-start" if amt_ok else show(amt)[:30]))
+        # the rotation works on the vector as it was: none of the self-describing fields (ptr/len/cap) is rewritten before it
+        writes = [x for x, tt in b.calls() if tt["f"].get("name") in ("set_ptr", "set_len", "set_cap")]
+        writes += [x for x, st in b.assigns() if st["p"]["p"] and st["p"]["p"][0] == "*" and st["p"]["l"] == 1 and
+                   any(isinstance(pe, dict) and pe.get("n") in ("ptr", "capacity", "initialized") for pe in st["p"]["p"])]
+        early = [(w, r) for w in writes for r, _ in rots if b.can_reach(w, r, cleanup=False)]
+        ctx.inst(R, b.path, not early, "the rotation precedes every rewrite of the vector's own ptr/len/cap" if not early else
+                 f"self's ptr/len/cap are rewritten (line {b.line_of(early[0][0])}) before the rotation (line {b.line_of(early[0][1])}): the "
+                 "rotation then works on the already shortened / shifted window and scrambles the elements", where=b.where(early[0][1]) if early else b.where(),
+                 site="rotation before rewriting self")
         sigs[b.path] = (b, frozenset(sig))
     if not ctx.need(len(sigs) >= 4, R, f"split_off implementations with rotations (found {len(sigs)})"):
         return
